@@ -1,15 +1,20 @@
 """C09 — a crash at any persistence step never bricks or corrupts the chain (spec/Crash.tla).
 
-Fault enumeration inside a model-checking frame: the durable step list of every scenario is
-recorded from the real run (cfg(grin_verif) crash points), Crash.tla is model-checked over those
-lists (WriteOrder, recoverability), and EVERY crash point of every scenario is executed for real:
-the child process abort()s at the point, the directory is reopened with Chain::init, validated,
-everything above the recovered head is re-delivered and compared with the never-interrupted run;
-the recorded outcomes are decided by the specification's Recover/Redeliver post-conditions
-(TLC, CrashTrace).  Also carries the chain-level clause of C08 (compaction is a stutter on
-head / roots / validation).
+Fault enumeration inside a model-checking frame.  The durable step list of every scenario is
+recorded from the real run in two layers: the cfg(grin_verif) crash points (hook layer) and every
+libc persistence call on a file of the chain directory, recorded by an LD_PRELOAD interposer
+(syscall layer, harness/crash/shim/crashshim.c — independent of where the hooks sit).  Crash.tla is
+model-checked over those lists (WriteOrder on both layers, layer agreement, recoverability), and the
+crash points are executed for real: the child process dies at the point (abort at the k-th hook /
+exit_group before — or in the middle of — the k-th system call), the directory is reopened with
+Chain::init, validated, the header-chain state is compared with the chain of the recovered
+header_head, the interrupted input and then everything above the recovered head is re-delivered and
+compared (body head, roots, header_head, header MMR root, height index) with the never-interrupted
+run; the recorded outcomes are decided by the specification's Recover/Redeliver post-conditions and
+the completeness of the enumeration by its crash-point definitions (TLC, CrashTrace).  Also carries
+the chain-level clause of C08 (compaction is a stutter on head / roots / validation).
 """
-import json, os, re, shutil, subprocess, concurrent.futures as cf
+import json, os, random, re, shutil, subprocess, time, concurrent.futures as cf
 import vlib
 from vlib import Report, ToolError
 
@@ -21,16 +26,28 @@ def BIN():
     return os.path.join(vlib.HARNESS_BINDIR, "h_crash")
 
 
-QUICK = ["extend", "extend_plain", "fork", "reorg", "headers"]
-THOROUGH = ["extend", "extend_plain", "fork", "reorg", "headers", "compact", "compact_block"]
-PRIMARY = {"opened": "init_error", "head_on_chain": "head_not_on_chain", "valid": "invalid_state", "converged": "no_convergence",
+SHORT = ["extend", "extend_plain", "fork", "reorg", "headers"]
+# scenario -> (hook layer, syscall layer, torn writes); "all" = every crash point the spec defines
+QUICK = {"extend": ("all", "sample", "sample"), "extend_plain": ("all", "all", "all"), "fork": ("all", "all", "sample"),
+         "reorg": ("all", "all", "all"), "headers": ("all", "all", "sample"), "compact": ("all", "sample", "sample")}
+THOROUGH = {sc: ("all", "all", "all") for sc in SHORT + ["compact", "compact_block"]}
+SAMPLE_MAX = 28
+TORN_SAMPLE = 8
+CLAUSES = ("opened", "head_on_chain", "valid", "header_ok", "converged", "input_converged")
+PRIMARY = {"opened": "init_error", "head_on_chain": "head_not_on_chain", "valid": "invalid_state",
+           "header_ok": "header_state_inconsistent", "converged": "no_convergence",
            "input_converged": "no_convergence_on_interrupted_input"}
+SHIM_KILL_RC = 97
+SYNC_CALLS = ("fsync", "fdatasync", "msync", "sync_file_range", "ftruncate_nop")
+WRITE_CALLS = ("write", "pwrite", "writev", "pwritev")
+_SHIM = {}
 
 
 def sh(cmd, env=None, timeout=900):
     e = dict(os.environ)
-    e.pop("GRIN_VERIF_CRASH_AT", None)
-    e.pop("GRIN_VERIF_CRASH_LOG", None)
+    for k in list(e):
+        if k.startswith("CRASHSHIM_") or k in ("GRIN_VERIF_CRASH_AT", "GRIN_VERIF_CRASH_LOG", "LD_PRELOAD"):
+            e.pop(k)
     if env:
         e.update(env)
     return subprocess.run(cmd, stdout=subprocess.PIPE, stderr=subprocess.PIPE, text=True, env=e, timeout=timeout)
@@ -41,6 +58,37 @@ def copytree(a, b):
     shutil.copytree(a, b)
 
 
+def build_shim(wd):
+    """The LD_PRELOAD fault injector is built from source on every run (never kept in git)."""
+    src = os.path.join(vlib.HARNESS_DIR, "crash", "shim", "crashshim.c")
+    so = os.path.join(wd, "libcrashshim.so")
+    p = subprocess.run(["cc", "-shared", "-fPIC", "-O1", "-U_FORTIFY_SOURCE", "-o", so, src, "-ldl", "-lpthread"],
+                       stdout=subprocess.PIPE, stderr=subprocess.STDOUT, text=True)
+    if p.returncode != 0 or not os.path.exists(so):
+        print(p.stdout[-2000:])
+        raise ToolError("could not build the crash shim")
+    _SHIM["so"] = so
+    return so
+
+
+def shim_env(run_dir, **kw):
+    e = {"LD_PRELOAD": _SHIM["so"], "CRASHSHIM_DIR": os.path.realpath(run_dir), "CRASHSHIM_MARKER": os.path.realpath(run_dir) + ".armed"}
+    e.update({k: str(v) for k, v in kw.items()})
+    return e
+
+
+def sys_step(call, path, nbytes):
+    lmdb = os.path.basename(path) in ("data.mdb", "lock.mdb")
+    mut = call not in SYNC_CALLS
+    return {"l": "%s %s" % (call, path), "call": call, "path": path, "bytes": nbytes, "mut": mut,
+            "file": mut and not lmdb, "top": lmdb and call in WRITE_CALLS and nbytes < 4096,
+            "tearable": call in WRITE_CALLS and nbytes >= 2 and not lmdb}
+
+
+def hook_step(l):
+    return {"l": l, "file": l.startswith("aof.") or l.startswith("tmpfile."), "top": l == "lmdb.commit.before top"}
+
+
 def prepare(wd, sc, blocks):
     d = os.path.join(wd, sc)
     p = sh([BIN(), "prepare", "--scenario", sc, "--dir", d, "--blocks", str(blocks)], timeout=1800)
@@ -48,20 +96,36 @@ def prepare(wd, sc, blocks):
         print(p.stdout[-2000:], p.stderr[-2000:])
         raise ToolError("prepare failed for " + sc)
     desc = json.load(open(os.path.join(d, "data.json")))
-    # reference: uninterrupted run, recording the durable step labels
+    # reference: uninterrupted run, recording both layers of durable steps in one execution
     ref = os.path.join(d, "ref")
     copytree(os.path.join(d, "base"), ref)
-    logf = os.path.join(d, "labels.txt")
-    if os.path.exists(logf):
-        os.remove(logf)
-    p = sh([BIN(), "run", "--dir", ref, "--data", d], env={"GRIN_VERIF_CRASH_LOG": logf})
+    logf, sysf = os.path.realpath(os.path.join(d, "labels.txt")), os.path.realpath(os.path.join(d, "sys.txt"))
+    for f in (logf, sysf):
+        if os.path.exists(f):
+            os.remove(f)
+    env = shim_env(ref, CRASHSHIM_LOG=sysf, CRASHSHIM_HOOKLOG=logf)
+    env["GRIN_VERIF_CRASH_LOG"] = logf
+    p = sh([BIN(), "run", "--dir", ref, "--data", d], env=env)
     if p.returncode != 0:
         print(p.stdout[-2000:], p.stderr[-2000:])
         raise ToolError("reference run failed for " + sc)
     refstate = json.loads(p.stdout.strip().splitlines()[-1])
     labels = [l.split(" ", 1)[1].strip() for l in open(logf)] if os.path.exists(logf) else []
+    sys_steps, hookpos, hooks_seen = [], [], []
+    for line in (open(sysf) if os.path.exists(sysf) else []):
+        line = line.rstrip("\n")
+        if line.startswith("H "):
+            hooks_seen.append(line.split(" ", 2)[2].strip())
+            hookpos.append(len(sys_steps))
+            continue
+        n, call, path, nbytes = line.split(" ")
+        if int(n) != len(sys_steps) + 1:
+            raise ToolError("crash shim log of %s is not contiguous at %s" % (sc, line))
+        sys_steps.append(sys_step(call, path, int(nbytes)))
+    if hooks_seen != labels:
+        raise ToolError("the interposer did not see the hook log of %s as the hooks wrote it (%d vs %d labels)" % (sc, len(hooks_seen), len(labels)))
     shutil.rmtree(ref, ignore_errors=True)
-    return d, desc, refstate, labels
+    return d, desc, refstate, labels, sys_steps, hookpos
 
 
 def ancestors(desc, h):
@@ -75,18 +139,38 @@ def ancestors(desc, h):
     return res
 
 
-def one_point(d, k):
-    run = os.path.join(d, "run%d" % k)
+def one_point(d, layer, k, torn=False, expect=None):
+    """expect (syscall layer): the step list of the reference run; the killed child must have executed exactly
+    its first k-1 steps and died at the k-th (the system-call sequence is reproducible)."""
+    run = os.path.join(d, "run_%s%d%s" % (layer, k, "t" if torn else ""))
     copytree(os.path.join(d, "base"), run)
-    p = sh([BIN(), "run", "--dir", run, "--data", d], env={"GRIN_VERIF_CRASH_AT": str(k)})
-    crashed = p.returncode != 0
+    if layer == "hook":
+        p = sh([BIN(), "run", "--dir", run, "--data", d], env={"GRIN_VERIF_CRASH_AT": str(k)})
+        crashed = p.returncode != 0
+    else:
+        slog = os.path.realpath(run) + ".sys"
+        p = sh([BIN(), "run", "--dir", run, "--data", d], env=shim_env(run, CRASHSHIM_AT=k, CRASHSHIM_TORN=1 if torn else 0, CRASHSHIM_LOG=slog))
+        crashed = p.returncode == SHIM_KILL_RC
+        seen = [x.rstrip("\n").split(" ", 1)[1].rsplit(" ", 1)[0] for x in open(slog)] if os.path.exists(slog) else []
+        if os.path.exists(slog):
+            os.remove(slog)
+        bad = None
+        if p.returncode not in (0, SHIM_KILL_RC):
+            bad = "rc=%s %s" % (p.returncode, p.stderr[-300:])
+        elif expect is not None and seen != [x["l"] for x in expect[:k]]:
+            bad = "system-call sequence differs from the reference run: %s vs %s" % (seen[-3:], [x["l"] for x in expect[:k]][-3:])
+        if bad:
+            shutil.rmtree(run, ignore_errors=True)
+            return {"k": k, "layer": layer, "torn": torn, "crashed": False, "init": "run_tool_error", "stderr": bad}
+    marker = os.path.realpath(run) + ".armed"
+    if os.path.exists(marker):
+        os.remove(marker)
     r = sh([BIN(), "recover", "--dir", run, "--data", d])
     shutil.rmtree(run, ignore_errors=True)
     if r.returncode != 0 or not r.stdout.strip():
-        return {"k": k, "crashed": crashed, "init": "recover_tool_error", "stderr": r.stderr[-500:]}
+        return {"k": k, "layer": layer, "torn": torn, "crashed": crashed, "init": "recover_tool_error", "stderr": r.stderr[-500:]}
     o = json.loads(r.stdout.strip().splitlines()[-1])
-    o["k"] = k
-    o["crashed"] = crashed
+    o.update({"k": k, "layer": layer, "torn": torn, "crashed": crashed})
     if "unspent_map" in o:
         um = o.pop("unspent_map")
         tw = twin_unspent(d, o["reopened"]["head"])
@@ -117,19 +201,57 @@ def _twin_unspent(d, head):
     return _TWIN[key]
 
 
+def header_problem(desc, refstate, st):
+    """The header-chain state of a reopened node must be that of an accepted header chain: header_head is a
+    header of the old or of the new header chain, the header MMR ends in it (head, size, root) and the height
+    index answers with its ancestors.  Returns None or a short description."""
+    by = {b["hash"]: b for b in desc["blocks"]}
+    hh, hdr = st["header_head"], st.get("hdr")
+    if hdr is None:
+        return "no_header_state"
+    if hh not in (ancestors(desc, desc["old_head"]) | ancestors(desc, refstate["header_head"])):
+        return "header_head_not_on_an_accepted_chain"
+    chain, h = [], hh
+    while h in by:
+        chain.append(h)
+        if by[h]["height"] == 0:
+            break
+        h = by[h]["prev"]
+    chain.reverse()
+    if hdr["by_height"] != chain:
+        bad = [i for i in range(min(len(chain), len(hdr["by_height"]))) if chain[i] != hdr["by_height"][i]]
+        return "height_index_differs_from_header_head_chain(first at %s)" % (bad[0] if bad else "length")
+    if hdr["mmr_head"] != hh:
+        return "header_mmr_head_differs_from_header_head"
+    n = by[hh]["height"] + 1
+    if hdr["size"] != 2 * n - bin(n).count("1"):
+        return "header_mmr_size"
+    kids = [b for b in desc["blocks"] if b["prev"] == hh and b["height"] > 0]
+    want = kids[0]["prev_root"] if kids else (refstate["hdr"]["root"] if hh == refstate["header_head"] else None)
+    if want is not None and hdr["root"] != want:
+        return "header_mmr_root"
+    return None
+
+
+def same_as_ref(st, refstate):
+    return st["head"] == refstate["head"] and st["roots"] == refstate["roots"] and st["header_head"] == refstate["header_head"] \
+        and st.get("hdr") == refstate.get("hdr")
+
+
 def classify(desc, refstate, o):
     """Outcome record for the trace spec + list of failed clauses (in order of severity)."""
     allowed = ancestors(desc, desc["old_head"]) | ancestors(desc, refstate["head"])
-    ev = {"opened": o.get("init") == "ok", "head_on_chain": False, "valid": False, "converged": False, "input_converged": False}
+    ev = {k: False for k in CLAUSES}
+    ev["opened"] = o.get("init") == "ok"
     if ev["opened"]:
         ev["head_on_chain"] = o["reopened"]["head"] in allowed
         ev["valid"] = o.get("validate") == "ok" and o.get("unspent_vs_replay", "ok") == "ok"
-        ev["converged"] = (not o.get("redeliver_errors")) and o["final"]["head"] == refstate["head"] \
-            and o["final"]["roots"] == refstate["roots"] and o.get("final_validate") == "ok"
+        o["header_problem"] = header_problem(desc, refstate, o["reopened"])
+        ev["header_ok"] = o["header_problem"] is None
+        ev["converged"] = (not o.get("redeliver_errors")) and same_as_ref(o["final"], refstate) and o.get("final_validate") == "ok"
         # the statement's clause: re-delivering the interrupted input alone reaches the uninterrupted node's state
-        ev["input_converged"] = (not o.get("input_errors")) and o["input_final"]["head"] == refstate["head"] \
-            and o["input_final"]["roots"] == refstate["roots"]
-    fails = [k for k in ("opened", "head_on_chain", "valid", "converged", "input_converged") if not ev[k]]
+        ev["input_converged"] = (not o.get("input_errors")) and same_as_ref(o["input_final"], refstate)
+    fails = [k for k in CLAUSES if not ev[k]]
     return ev, fails
 
 
@@ -138,78 +260,186 @@ def point_signature(sc, fails, label, occ):
     return "crash:%s:%s:at=%s#%d" % (sc, PRIMARY[fails[0]], label.replace(" ", "_"), occ)
 
 
+def sys_kind(steps, n):
+    """(call kind, file, occurrence) of syscall-layer step n, stable across runs: LMDB page writes are counted
+    per commit (their number depends on the page layout), everything else per (file, call) pair."""
+    s = steps[n - 1]
+    if os.path.basename(s["path"]) == "data.mdb" and s["call"] in WRITE_CALLS:
+        metas = sum(1 for x in steps[:n - 1] if x["top"])
+        return ("lmdb_meta", s["path"], metas + 1) if s["top"] else ("lmdb_page", s["path"], metas + 1)
+    return s["call"], s["path"], sum(1 for x in steps[:n] if x["call"] == s["call"] and x["path"] == s["path"])
+
+
+def sys_signature(sc, fails, steps, n, torn):
+    if n > len(steps):
+        return "crash:%s:%s:sys=completed" % (sc, PRIMARY[fails[0]])
+    kind, path, occ = sys_kind(steps, n)
+    return "crash:%s:%s:sys=%s%s:%s#%d" % (sc, PRIMARY[fails[0]], "torn_" if torn else "", kind, path, occ)
+
+
 def describe(sc, label, fails, o):
-    return "%s after a kill at '%s' (%s): init=%s %s validate=%s reopened_height=%s redeliver=%s" % (
+    return "%s after a kill at '%s' (%s): init=%s %s validate=%s header=%s reopened_height=%s redeliver=%s" % (
         ",".join(PRIMARY[f] for f in fails), label, sc, o.get("init"), o.get("err", "")[:60],
-        (str(o.get("validate")) + "/unspent:" + str(o.get("unspent_vs_replay", "-")))[:120],
+        (str(o.get("validate")) + "/unspent:" + str(o.get("unspent_vs_replay", "-")))[:120], o.get("header_problem"),
         o.get("reopened", {}).get("head_height"), str(o.get("redeliver_errors"))[:80])
 
 
-def enumerate_scenario(wd, sc, blocks=90, workers=8):
-    d, desc, refstate, labels = prepare(wd, sc, blocks)
+class Layers:
+    """The two recorded step lists of one scenario and the derived notions (the same definitions as Crash.tla;
+    CrashTrace re-computes state / window of every event and rejects the trace when they differ)."""
+
+    def __init__(self, labels, steps, hookpos):
+        self.labels, self.steps, self.hookpos = labels, steps, hookpos
+        self.mutbefore = [0]
+        for s in steps:
+            self.mutbefore.append(self.mutbefore[-1] + (1 if s["mut"] else 0))
+        occ, self.hook_occ = {}, []
+        for l in labels:
+            occ[l] = occ.get(l, 0) + 1
+            self.hook_occ.append(occ[l])
+
+    def sys_state(self, at):
+        return self.mutbefore[at - 1]
+
+    def hook_state(self, j):
+        return self.mutbefore[self.hookpos[j - 1]] if j <= len(self.labels) else self.mutbefore[-1]
+
+    def open_hook(self, at):
+        js = [j for j in range(1, len(self.hookpos) + 1) if self.hookpos[j - 1] <= at - 1]
+        return max(js) if js else 0
+
+    def sys_points(self):
+        return [i for i in range(1, len(self.steps) + 1) if self.steps[i - 1]["mut"]] + [len(self.steps) + 1]
+
+    def torn_points(self):
+        return [i for i in range(1, len(self.steps) + 1) if self.steps[i - 1]["tearable"]]
+
+    def sample(self, pts, rng, keep_uncovered):
+        """Quick-tier sample: prefer crash states no hook point has, thin runs of equal calls, then draw."""
+        if keep_uncovered:
+            hs = {self.hook_state(j) for j in range(1, len(self.labels) + 2)}
+            unc = [i for i in pts if self.sys_state(i) not in hs]
+            pts = unc or pts
+        thin = [i for n, i in enumerate(pts) if i > len(self.steps) or n == 0 or n == len(pts) - 1
+                or not (self.steps[i - 1]["l"] == self.steps[pts[n - 1] - 1]["l"] and pts[n + 1] <= len(self.steps)
+                        and self.steps[i - 1]["l"] == self.steps[pts[n + 1] - 1]["l"])]
+        if len(thin) > SAMPLE_MAX:
+            thin = sorted(rng.sample(thin, SAMPLE_MAX))
+        return thin
+
+
+def enumerate_scenario(wd, sc, si, modes, rng, blocks=90, workers=8):
+    hookmode, sysmode, tornmode = modes
+    t0 = time.time()
+    d, desc, refstate, labels, steps, hookpos = prepare(wd, sc, blocks)
+    t1 = time.time()
     if not labels:
         raise ToolError("no crash points recorded for %s (hook not compiled in?)" % sc)
+    if not steps:
+        raise ToolError("no system calls recorded for %s (interposer not loaded?)" % sc)
+    L = Layers(labels, steps, hookpos)
     n = len(labels)
+    jobs = [("hook", k, False) for k in range(1, n + 2)]      # n+1: no crash point reached => completes
+    sp = L.sys_points()
+    jobs += [("sys", k, False) for k in (sp if sysmode == "all" else L.sample(sp, rng, True))]
+    tp = L.torn_points()
+    jobs += [("sys", k, True) for k in (tp if tornmode == "all" else sorted(rng.sample(tp, min(len(tp), TORN_SAMPLE))))]
     with cf.ThreadPoolExecutor(max_workers=workers) as ex:
-        outs = list(ex.map(lambda k: one_point(d, k), range(1, n + 2)))   # n+1: no crash point reached => completes
+        outs = list(ex.map(lambda j: one_point(d, j[0], j[1], j[2], steps if j[0] == "sys" else None), jobs))
     occ, details = {}, []
     for o in outs:
-        k = o["k"]
-        label = labels[k - 1] if k <= n else "completed"
-        occ[label] = occ.get(label, 0) + 1
-        if k <= n and not o["crashed"]:
-            raise ToolError("child did not abort at point %d of %s" % (k, sc))
-        if o.get("init") == "recover_tool_error":
-            raise ToolError("recover failed at %s #%d: %s" % (sc, k, o.get("stderr")))
+        k, layer, torn = o["k"], o["layer"], o["torn"]
+        lst = labels if layer == "hook" else [s["l"] for s in steps]
+        label = lst[k - 1] if k <= len(lst) else "completed"
+        if layer == "hook":
+            occ[label] = occ.get(label, 0) + 1
+        if o.get("init") in ("recover_tool_error", "run_tool_error"):
+            raise ToolError("%s failed at %s %s#%d: %s" % (o["init"], sc, layer, k, o.get("stderr")))
+        if k <= len(lst) and not o["crashed"]:
+            raise ToolError("child did not die at %s point %d of %s" % (layer, k, sc))
         ev, fails = classify(desc, refstate, o)
-        ev.update({"k": "Crash", "scenario": sc, "at": k, "label": label})
-        details.append({"sc": sc, "k": k, "label": label, "occ": occ[label], "fails": fails, "o": o, "ev": ev})
+        state = L.hook_state(k) if layer == "hook" else L.sys_state(k)
+        ev.update({"k": "Crash", "scenario": sc, "si": si, "layer": layer, "at": k, "label": label, "torn": torn,
+                   "win": L.open_hook(k) if layer == "sys" else 0, "state": state})
+        details.append({"sc": sc, "layer": layer, "k": k, "torn": torn, "label": label, "occ": occ.get(label, 0), "fails": fails,
+                        "o": o, "ev": ev, "state": state})
     shutil.rmtree(d, ignore_errors=True)
-    return refstate, labels, details
+    vlib.log("C09 %s: prepared in %.0fs; %d hook-layer, %d syscall-layer, %d torn-write crash points run in %.0fs" % (
+        sc, t1 - t0, n + 1, len([j for j in jobs if j[0] == "sys" and not j[2]]), len([j for j in jobs if j[2]]), time.time() - t1))
+    return refstate, L, details
+
+
+def signature_of(rep, dt, L):
+    """Hook-layer points keep their signature. A failing syscall-layer point is the same finding as a hook-layer
+    point when it leaves the same crash state, or lies in the window that hook point opens / closes, and fails
+    the same primary clause: it then carries that point's signature (so a listed finding stays one finding);
+    otherwise it gets a signature of its own (scenario, clause, call kind, file, occurrence)."""
+    if dt["layer"] == "hook":
+        return point_signature(dt["sc"], dt["fails"], dt["label"], dt["occ"])
+    known = {k["signature"] for k in rep.known}
+    n, nh = dt["k"], len(L.labels)
+    w = L.open_hook(n)
+    cands = [j for j in range(1, nh + 1) if not dt["torn"] and L.hook_state(j) == dt["state"]] + [j for j in (w, w + 1) if 1 <= j <= nh]
+    for j in cands:
+        s = point_signature(dt["sc"], dt["fails"], L.labels[j - 1], L.hook_occ[j - 1])
+        if s in known:
+            return s
+    return sys_signature(dt["sc"], dt["fails"], L.steps, n, dt["torn"])
 
 
 def run(tier, replay):
     rep = Report(PID, tier, "fault_enumeration")
     rep.max_replays = 400
     wd = vlib.workdir(PID, clean=True)
+    build_shim(wd)
     thorough = tier == "thorough"
-    scenarios = THOROUGH if thorough else QUICK
+    plan = THOROUGH if thorough else QUICK
+    rng = random.Random(vlib.seed())
     if replay:
         obj = json.load(open(replay))
         c = obj["case"]
-        d, desc, refstate, labels = prepare(wd, c["scenario"], 90)
-        o = one_point(d, c["k"])
+        if c["scenario"] == "model":
+            raise ToolError("a model-level finding is re-checked by a full run, not by --replay")
+        d, desc, refstate, labels, steps, hookpos = prepare(wd, c["scenario"], 90)
+        o = one_point(d, c.get("layer", "hook"), c["k"], c.get("torn", False))
         ev, fails = classify(desc, refstate, o)
         if fails:
             rep.violation(obj["signature"], c, "still fails: " + describe(c["scenario"], c.get("label"), fails, o))
         rep.coverage = {"evaluations": 1, "distinct_nontrivial": 2, "rule": "replay of one crash point",
-                        "samples": [{"scenario": c["scenario"], "k": c["k"]}]}
+                        "samples": [{"scenario": c["scenario"], "layer": c.get("layer", "hook"), "k": c["k"]}]}
         return rep.finish()
 
-    all_labels, details, samples, compaction_stutter = {}, [], [], []
-    for sc in scenarios:
-        refstate, labels, det = enumerate_scenario(wd, sc)
-        all_labels[sc] = labels
+    layers, details, samples, compaction_stutter = {}, [], [], []
+    for si, (sc, modes) in enumerate(plan.items()):
+        refstate, L, det = enumerate_scenario(wd, sc, si + 1, modes, rng)     # si: position in the Scenarios constant
+        layers[sc] = L
         details.extend(det)
         if sc.startswith("compact"):
             # chain-level clause of C08: compaction leaves head / validation untouched
             compaction_stutter.append({"scenario": sc, "validate_after": refstate.get("validate"), "results": refstate.get("results")})
             if refstate.get("validate") != "Ok(())" or any("Err" in x for x in refstate.get("results", [])):
                 rep.violation("compact:%s:uninterrupted_run_invalid" % sc, {"scenario": sc, "k": 0}, str(refstate)[:300])
-        n = len(labels)
+        n = len(L.labels)
         for dt in det:
-            if dt["k"] in (1, n // 2, n) and len(samples) < 6:
+            if dt["layer"] == "hook" and dt["k"] in (1, n // 2, n) and len(samples) < 6:
                 samples.append({"scenario": sc, "crash_at": dt["k"], "label": dt["label"],
                                 "reopened_head_height": dt["o"].get("reopened", {}).get("head_height"), "outcome": dt["ev"]})
+        sysd = [dt for dt in det if dt["layer"] == "sys"]
+        for dt in ([x for x in sysd if not x["torn"]][len(sysd) // 3:][:1] + [x for x in sysd if x["torn"]][:1]):
+            if len(samples) < 14:
+                samples.append({"scenario": sc, "layer": "sys", "torn": dt["torn"], "crash_at": dt["k"], "label": dt["label"], "outcome": dt["ev"]})
 
-    # (M) Crash.tla over the recorded step lists: WriteOrder + every prefix recoverable by the contract
+    # (M) Crash.tla over the recorded step lists: WriteOrder on both layers, layer agreement,
+    #     every prefix recoverable by the contract
     steps_path = os.path.join(wd, "steps.json")
-    json.dump([{"name": sc, "steps": [{"l": l, "file": l.startswith("aof.") or l.startswith("tmpfile."),
-                                       "top": l == "lmdb.commit.before top"} for l in all_labels[sc]]}
-               for sc in scenarios], open(steps_path, "w"))
+    json.dump([{"name": sc, "steps": [hook_step(l) for l in layers[sc].labels], "sys": layers[sc].steps, "hookpos": layers[sc].hookpos,
+                "hookmode": plan[sc][0], "sysmode": plan[sc][1], "tornmode": plan[sc][2]} for sc in plan], open(steps_path, "w"))
     r = vlib.tlc("mc/MC_Crash", "mc/MC_Crash", workers=2, coverage=False, env={"STEPS": steps_path}, timeout=900)
+    if r.invariant_violated and not set(r.invariant_violated) <= {"WriteOrder", "EndsWithCommit", "SysWriteOrder", "SysEndsWithCommit"}:
+        print(r.out[-3000:])
+        raise ToolError("MC_Crash: %s violated (the two recorded layers do not describe one execution, or the spec is wrong)" % r.invariant_violated)
     if r.invariant_violated:
-        # WriteOrder is a statement about the recorded (real) step order: a violation is a real finding
+        # these invariants are statements about the recorded (real) step order: a violation is a real finding
         for inv in r.invariant_violated:
             rep.violation("crash:model:%s" % inv, {"scenario": "model", "k": 0, "tlc": r.out[-1500:]},
                           "Crash.tla invariant %s violated on the recorded step lists" % inv)
@@ -217,36 +447,66 @@ def run(tier, replay):
         print(r.out[-3000:])
         raise ToolError("MC_Crash did not complete")
 
-    # (B) every recorded outcome is decided by the spec's Recover/Redeliver post-conditions (TLC)
+    # (B) every recorded outcome is decided by the spec's Recover/Redeliver post-conditions, the crash points
+    #     by its Crash / CrashTorn guards, the completeness of the enumeration by its crash-point sets (TLC)
     tp = os.path.join(wd, "trace.ndjson")
     vlib.write_ndjson(tp, [dt["ev"] for dt in details])
     t = vlib.tlc("trace/CrashTrace", workers=1, coverage=False, env={"TRACE": tp, "STEPS": steps_path}, xss="512m", timeout=900)
     if not t.finished:
         print(t.out[-3000:])
-        raise ToolError("CrashTrace did not accept the trace structure (label / step-list binding broken?)")
+        raise ToolError("CrashTrace did not accept the trace structure (label / step-list / crash-point binding broken?)")
     bad = sorted({int(x) for x in re.findall(r'<<"CRASHVIOLATION", (\d+)>>', t.out)})
     py_bad = [i + 1 for i, dt in enumerate(details) if dt["fails"]]
     if bad != py_bad:
         raise ToolError("trace spec and driver disagree on failing events: %s vs %s" % (bad[:10], py_bad[:10]))
+    new_sys = []
     for i in bad:
         dt = details[i - 1]
-        rep.violation(point_signature(dt["sc"], dt["fails"], dt["label"], dt["occ"]),
-                      {"scenario": dt["sc"], "k": dt["k"], "label": dt["label"], "outcome": dt["o"]},
-                      describe(dt["sc"], dt["label"], dt["fails"], dt["o"]))
+        L = layers[dt["sc"]]
+        sig = signature_of(rep, dt, L)
+        what = describe(dt["sc"], dt["label"], dt["fails"], dt["o"])
+        is_new = rep.violation(sig, {"scenario": dt["sc"], "layer": dt["layer"], "k": dt["k"], "torn": dt["torn"], "label": dt["label"],
+                                     "outcome": dt["o"]}, what)
+        if dt["layer"] == "sys" and is_new:
+            w = L.open_hook(dt["k"])
+            new_sys.append({"property": PID, "status": "known", "signature": sig, "what": what, "scenario": dt["sc"], "syscall_index": dt["k"],
+                            "torn": dt["torn"], "window_opened_by": (L.labels[w - 1] + "#%d" % L.hook_occ[w - 1]) if w else "start"})
+    if new_sys:
+        # proposal only: the list of known findings is not edited by the check
+        with open(os.path.join(vlib.OUT, "work", "c09_proposed_known.json"), "w") as f:
+            json.dump({"findings": new_sys}, f, indent=1)
 
+    # crash points of the two layers that leave the same crash state: do their verdicts agree? (measured, not demanded)
+    by_state = {}
+    for dt in details:
+        if not dt["torn"]:
+            by_state.setdefault((dt["sc"], dt["state"]), {}).setdefault(dt["layer"], set()).add(bool(dt["fails"]))
+    both = [v for v in by_state.values() if "hook" in v and "sys" in v]
+    hookd = [dt for dt in details if dt["layer"] == "hook"]
+    sysd = [dt for dt in details if dt["layer"] == "sys"]
     rep.coverage = {
         "evaluations": len(details),
-        "distinct_nontrivial": len({(dt["sc"], dt["label"]) for dt in details}),
-        "rule": "one evaluation per (scenario, crash point): child aborted at the k-th durable step, directory reopened, validated, everything above the recovered head re-delivered, compared with the uninterrupted run; distinct = distinct (scenario, step label)",
+        "distinct_nontrivial": len({(dt["sc"], dt["layer"], dt["label"]) for dt in details}),
+        "rule": "one evaluation per (scenario, layer, crash point): child killed at the k-th durable step (abort at the hook / exit_group before or in the middle of the system call), directory reopened, validated, header-chain state checked, interrupted input and then everything above the recovered head re-delivered, compared with the uninterrupted run; distinct = distinct (scenario, layer, step label)",
         "samples": samples,
-        "scenarios": {sc: len(all_labels[sc]) for sc in scenarios},
-        "crash_points_failing": len(bad),
+        "scenarios": {sc: len(layers[sc].labels) for sc in plan},
+        "syscall_steps": {sc: {"steps": len(layers[sc].steps), "crash_states": len(layers[sc].sys_points()), "torn_points": len(layers[sc].torn_points()),
+                               "modes": list(plan[sc])} for sc in plan},
+        "hook_points_run": len(hookd), "syscall_points_run": len([d_ for d_ in sysd if not d_["torn"]]), "torn_points_run": len([d_ for d_ in sysd if d_["torn"]]),
+        "syscall_states_without_hook_point": len({(dt["sc"], dt["state"]) for dt in sysd if not dt["torn"]} - {(dt["sc"], dt["state"]) for dt in hookd}),
+        "state_equal_points_in_both_layers": len(both), "state_equal_points_disagreeing": len([v for v in both if v["hook"] != v["sys"]]),
+        "known_signatures_not_reproduced": sorted(k["signature"] for k in rep.known if k["signature"].split(":")[1] in plan
+                                                  and k["signature"] not in rep.known_hit),
+        "crash_points_failing": len(bad), "syscall_points_failing_outside_known_windows": len(new_sys),
         "states": r.distinct, "transitions": r.generated,
         "traces_validated_against_impl": len(details),
-        "exhaustive": True,
+        "exhaustive": all(m == "all" for sc in plan for m in plan[sc]),
+        "hook_layer_exhaustive": all(plan[sc][0] == "all" for sc in plan),
+        "syscall_layer_exhaustive_for": [sc for sc in plan if plan[sc][1] == "all"],
         "compaction_stutter": compaction_stutter,
     }
-    rep.assumptions = ["process death (abort), not power loss: data written before the kill is in the page cache; missing fsyncs are not detectable",
-                       "crash points are the cfg(grin_verif) hooks at file truncate/append/replace, temp-file rename and LMDB commit",
+    rep.assumptions = ["process death (abort / exit_group), not power loss: data written before the kill is in the page cache; missing fsyncs are not detectable, and crash points that differ only by a sync are one crash state",
+                       "hook layer: the cfg(grin_verif) hooks at file truncate/append/replace, temp-file rename and LMDB commit; syscall layer: the libc calls interposed by harness/crash/shim/crashshim.c on files under the chain directory (stores through a writable shared mapping would not be seen; grin and LMDB without MDB_WRITEMAP have none)",
+                       "a torn write leaves the first half of the bytes of one write(2); writes to the LMDB data file are not torn (its pages are unreferenced until the single small meta-page write)",
                        "blocks processed with SKIP_POW under AutomatedTesting"]
     return rep.finish()
